@@ -107,7 +107,7 @@ _ARCH_NOTE = ("Trusted: Coq kernel, translator (constants, magic, field numbers 
               "(hand-written Gallina mirror of prost's encode/merge loops). Assumed: Blake2b-512 is a function `H` with the "
               "stated injectivity hypotheses; brotli is an oracle; prost implements the protobuf wire format as mirrored.")
 PROPS["C07"] = {
-    "theorems": ["C07_runs_spec", "C07_requests_are_maximal_runs"],
+    "theorems": ["C07_runs_spec", "C07_requests_are_maximal_runs", "C07_clone_requests_end_to_end", "C07_nothing_found_one_request"],
     "suites": ["http", "cliclone"], "needs_cli": True,
     "rule": "cases: all 64 subsets of a 6-chunk archive and random chunk lists (adjacent, gapped, unordered) fetched by the real "
             "HttpReader from a scripted raw-TCP server that logs every Range header; requests compared with the model and with "
